@@ -41,7 +41,7 @@ def rand_chain(rng, nmax=8, mult_max=3, names=None, meta=True, with_rand_json=No
                 info["model_params"] = rng.choice(["", [1, 2], ["a", 3]])
             if with_rand_json and rng.random() < 0.4:
                 info[rng.choice(["study", "year", "zfit"])] = with_rand_json(rng)
-        decays.append([dec[i], Fraction(rng.randint(1, 99), rng.randint(1, 99)), ds, info])
+        decays.append([dec[i], Fraction(0) if rng.random() < 0.06 else Fraction(rng.randint(1, 99), rng.randint(1, 99)), ds, info])
     # every decaying particle j>0 must be reachable: guaranteed for used; drop unused
     decays = [d for i, d in enumerate(decays) if i in used]
     order = decays[:]
